@@ -43,6 +43,8 @@ def check(ctx, rep, rule='R13.2'):
                 cents.add(a[2])
         if x and x[0] == 'cast' and x[2][0] == 'bin' and x[2][1] == 'Div' and const_f64(x[2][3]) == 100.0:
             cents.add(x[2][2])
+        if x and x[0] == 'app' and x[1].endswith('::div_euclid') and len(x[2]) == 2 and const_f64(x[2][1]) == 100.0:
+            cents.add(x[2][0])
     if len(ys) != 1 or len(cents) != 1:
         rep.ob(rule, 'meeus-structure', None, f'Meeus day-count / century terms not recognised ({len(ys)} / {len(cents)})')
         return
